@@ -1,8 +1,8 @@
 """C06 — backings are persistent: snapshots and copies never change."""
 from hist import *  # noqa
 
-THEOREMS = ["C06_heap_frame", "C06_setter_extends", "C06_root_frame", "C06_copy_isolated", "C06_copy_has_no_hook"]
-PARTIAL = ["commands addressed to HOOKED children of a copy reach only the copy and its descendants: proved for the unhooked (top-level / copy) case; the hooked case is covered by the correspondence (every held view compared after every command) and the snapshot oracle"]
+THEOREMS = ["C06_heap_frame", "C06_setter_extends", "C06_root_frame", "C06_copy_isolated", "C06_copy_has_no_hook", "C06_only_the_chain_changes"]
+PARTIAL = ["C06_only_the_chain_changes covers commands through hooked views with a VALID hook chain (any depth): only the cells of that chain change, so never the view a copy was taken from; for stale chains (slot popped away / union switched) the model theorem does not apply and the claim rests on the correspondence and the snapshot oracle; node-level immutability is C06_heap_frame"]
 COQ_IMPORTS = ["RM.Types", "RM.ModelStore", "RMR.RunH"]
 COQ_FN = "RunH.run"
 COQ_CASE_TY = "RunH.case"
